@@ -424,13 +424,22 @@ vec![("same-roa", true), ("mixed", true), ("two-entities", true), ("history", tr
 vec![("same-roa", true), ("mixed", true), ("two-entities", true), ("history", true), ("same-roa", false), ("two-writers+real-locks", true)]
     };
     let only = crate::report::arg_value(args, "--variant");
-    for (variant, disk) in variants {
+    // quick tier: one wall budget for all variants together (a variant gets
+    // an equal share of what is left, at least five seconds)
+    let quick_deadline = std::time::Instant::now() + Duration::from_secs(60);
+    let n_variants = variants.len();
+    for (vi, (variant, disk)) in variants.into_iter().enumerate() {
         if only.as_deref().map(|o| o != variant).unwrap_or(false) {
             continue;
         }
         let b = if variant.ends_with("+real-locks") { bound.min(1) } else { bound };
         let cap = if tier.thorough { 20_000 } else { 1_500 };
-        let wall = Duration::from_secs(if tier.thorough { 900 } else { 40 });
+        let wall = if tier.thorough {
+            Duration::from_secs(900)
+        } else {
+            let left = quick_deadline.saturating_duration_since(std::time::Instant::now());
+            (left / (n_variants - vi) as u32).max(Duration::from_secs(5)).min(Duration::from_secs(40))
+        };
         let xroot = root.join(format!("{variant}-{disk}"));
         std::fs::create_dir_all(&xroot).unwrap();
         let tpl = template.clone();
